@@ -357,6 +357,64 @@ fn run_c15(idx: usize, rounds: usize) {
     }
 }
 
+/// C15 publish mode: callers publish different valid messages (chosen for the kinds of amounts they carry: a
+/// currency without minor unit, fractional amounts) at the same moment, from a cold start. Oracle (O3, no
+/// reference needed): what a caller publishes parses back to exactly the message it published.
+fn run_c15_pub(idx: usize, rounds: usize) {
+    let subs = subjects::PUBLISH;
+    if subs.is_empty() {
+        println!("MICRO-SKIP subject={idx} mt=- no publish subjects recorded");
+        return;
+    }
+    let hs: Vec<_> = (0..4)
+        .map(|k| {
+            let (class, mt, text) = subs[(idx + k) % subs.len()];
+            std::thread::spawn(move || {
+                let mut bad = vec![];
+                let Ok(p) = SwiftParser::parse_auto(text) else { return (vec![], true) };
+                let j0 = on_parsed!(&p, m => serde_json::to_value(&**m)).unwrap_or_default();
+                for r in 0..rounds.max(1) {
+                    let t2 = on_parsed!(&p, m => m.to_mt_message());
+                    match SwiftParser::parse_auto(&t2) {
+                        Ok(p2) => {
+                            let j2 = on_parsed!(&p2, m => serde_json::to_value(&**m)).unwrap_or_default();
+                            if j2 != j0 {
+                                let line = t2.lines().zip(text.lines()).find(|(a, b)| a != b).map(|(a, b)| format!("`{a}` where the recorded text has `{b}`")).unwrap_or_default();
+                                bad.push(format!("O3 caller {k} publish #{r} of a valid MT{mt} message ({class}) while other callers publish other messages: the published text does not parse back to the message ({line})"));
+                            }
+                        }
+                        Err(e) => bad.push(format!("O1 caller {k} publish #{r} of a valid MT{mt} message ({class}) while other callers publish: the published text does not parse: {e}")),
+                    }
+                }
+                (bad, false)
+            })
+        })
+        .collect();
+    let mut bad = vec![];
+    let mut skipped = 0;
+    for h in hs {
+        match h.join() {
+            Ok((b, skip)) => {
+                bad.extend(b);
+                skipped += skip as usize;
+            }
+            Err(_) => println!("MICRO-NOTE subject={idx} a caller thread panicked"),
+        }
+    }
+    let mt: Vec<&str> = subs.iter().map(|s| s.1).collect();
+    let mt = mt.join("+");
+    if skipped == 4 {
+        println!("MICRO-SKIP subject={idx} mt={mt} none of the recorded messages parses on this tree");
+    } else if bad.is_empty() {
+        println!("MICRO-OK subject={idx} mt={mt} 4 callers published {} messages each at once from a cold start; every text parsed back to its message", rounds.max(1));
+    } else {
+        for b in &bad {
+            println!("MICRO-VIOLATION subject={idx} mt={mt} {b}");
+        }
+        std::process::exit(1);
+    }
+}
+
 /// C15 cold-start mode: N callers validate the same valid published message at the same moment as the
 /// very first use of the library in the process (first-touch initialisation of anything lazily built
 /// happens under overlap); the reference is the same call afterwards with nothing else running.
@@ -440,6 +498,12 @@ fn run_c13_cold(idx: usize, callers: usize) {
 
 fn main() {
     let mut args: Vec<String> = std::env::args().collect();
+    if args.get(1).map(|s| s.as_str()) == Some("c15pub") {
+        let idx: usize = args.get(2).and_then(|s| s.parse().ok()).unwrap_or(0);
+        let rounds: usize = args.get(3).and_then(|s| s.parse().ok()).unwrap_or(2);
+        run_c15_pub(idx, rounds);
+        return;
+    }
     if args.get(1).map(|s| s.as_str()) == Some("c15cold") {
         let idx: usize = args.get(2).and_then(|s| s.parse().ok()).unwrap_or(0);
         let callers: usize = args.get(3).and_then(|s| s.parse().ok()).unwrap_or(4);
